@@ -1,27 +1,120 @@
-/* native replay support: witness table + main().  Built with -DQV_NATIVE -DQV_ENTRY=<harness entry>. */
+/*
+ * native replay support.  Built with -DQV_NATIVE -DQV_ENTRY=<harness entry> (+ASan/UBSan).
+ *   replay <witness-file>                 run the harness entry once on the recorded inputs
+ *   replay --search <trials> <seed> <out> small-scope random search for a concrete failing input:
+ *                                         every trial runs the entry in a forked child on freshly
+ *                                         drawn small inputs (logged to <out> as they are drawn); the
+ *                                         first child that violates a postcondition, trips a
+ *                                         sanitizer or exceeds the 2 s watchdog ends the search.
+ * exit: 0 postconditions hold / nothing found, 1 violated, 77 assumption of the harness not met
+ */
 #include <stdio.h>
 #include <stdlib.h>
 #include <string.h>
+#include <unistd.h>
+#include <signal.h>
+#include <sys/wait.h>
 
 int qv_failed = 0;
-static struct { char name[96]; long long v; } qv_tab[4096];
-static int qv_n = 0;
+static struct { char name[96]; long long v; } qv_tab[8192];
+static int qv_n = 0, qv_cur = 0;
+static int qv_search = 0;
+static unsigned long long qv_rng;
+static FILE *qv_log;
+#ifndef QV_WCAP
+#define QV_WCAP 6
+#endif
 
-long long qv_witness(const char *name, long long dflt) {
+static unsigned long long rnd(void) {
+    qv_rng ^= qv_rng << 13; qv_rng ^= qv_rng >> 7; qv_rng ^= qv_rng << 17;
+    return qv_rng;
+}
+
+static const unsigned char QV_BYTES[] = {0, 0, ' ', '\t', '\n', '\r', '%', '+', '=', '&', '"', '\'', '\\', '<', '>', '/', '#',
+    '[', ']', '$', '{', '}', 'a', 'b', 'A', 'B', 'f', 'F', 'g', 'z', '0', '1', '9', '.', '-', '_', ':', ';', ',', 0x7f, 0x80, 0xff, 0xc3};
+
+static long long draw(const char *type, const char *name) {
+    unsigned long long r = rnd();
+    if (strchr(name, '[')) {                        /* a byte of an input buffer */
+        if (r % 4 == 0) return (r >> 8) & 0xff;
+        return QV_BYTES[(r >> 8) % sizeof QV_BYTES];
+    }
+    if (!strcmp(type, "bool")) return (r >> 8) & 1;
+    if (!strcmp(type, "uchar") || !strcmp(type, "char") || !strcmp(type, "uint8_t")) {
+        if (r % 3 == 0) return (r >> 8) & 0xff;
+        return QV_BYTES[(r >> 8) % sizeof QV_BYTES];
+    }
+    if (!strcmp(type, "int") || !strcmp(type, "long") || !strcmp(type, "int64_t")) {
+        long long span = 2 * (QV_WCAP + 3) + 1;
+        return (long long)((r >> 8) % span) - (QV_WCAP + 3);
+    }
+    if (!strcmp(type, "uint32_t") || !strcmp(type, "uint64_t")) {
+        if (r % 2) return (long long)(rnd() & 0xffffffffu);
+        return (r >> 8) % (QV_WCAP + 3);
+    }
+    /* size_t, unsigned and anything else: small non-negative */
+    return (r >> 8) % (QV_WCAP + 3);
+}
+
+long long qv_witness_t(const char *type, const char *name, long long dflt) {
+    if (qv_search) {
+        long long v = draw(type, name);
+        if (qv_log) { fprintf(qv_log, "%s=%lld\n", name, v); fflush(qv_log); }
+        return v;
+    }
+    /* recorded inputs are consumed in the order they were drawn */
+    for (int i = qv_cur; i < qv_n; i++)
+        if (!strcmp(qv_tab[i].name, name)) { qv_cur = i + 1; return qv_tab[i].v; }
     for (int i = qv_n - 1; i >= 0; i--)
         if (!strcmp(qv_tab[i].name, name)) return qv_tab[i].v;
     return dflt;
 }
+long long qv_witness(const char *name, long long dflt) { return qv_witness_t("", name, dflt); }
 
 void QV_ENTRY(void);
 
+static int run_once(void) {
+    QV_ENTRY();
+    if (qv_failed) { printf("REPLAY-RESULT: violated\n"); return 1; }
+    printf("REPLAY-RESULT: postconditions hold for this witness\n");
+    return 0;
+}
+
 int main(int argc, char **argv) {
+    if (argc >= 5 && !strcmp(argv[1], "--search")) {
+        long trials = atol(argv[2]);
+        unsigned long long seed = strtoull(argv[3], NULL, 10);
+        const char *out = argv[4];
+        for (long t = 0; t < trials; t++) {
+            fflush(stdout);
+            pid_t pid = fork();
+            if (pid == 0) {
+                qv_search = 1;
+                qv_rng = 0x9E3779B97F4A7C15ull ^ ((seed + 1) * 0x100000001B3ull + (unsigned long long)t * 0xD6E8FEB86659FD93ull);
+                rnd(); rnd();
+                qv_log = fopen(out, "w");
+                freopen("/dev/null", "w", stdout);
+                freopen("/dev/null", "w", stderr);
+                alarm(2);
+                _exit(run_once());
+            }
+            int st = 0;
+            waitpid(pid, &st, 0);
+            int bad = 0;
+            if (WIFSIGNALED(st)) bad = 1;
+            else if (WIFEXITED(st) && WEXITSTATUS(st) != 0 && WEXITSTATUS(st) != 77) bad = 1;
+            if (bad) { printf("SEARCH: failing input found at trial %ld\n", t); return 1; }
+        }
+        unlink(out);
+        printf("SEARCH: no failing input in %ld trials\n", trials);
+        return 0;
+    }
     if (argc > 1) {
         FILE *f = fopen(argv[1], "r");
         char line[256];
         while (f && fgets(line, sizeof line, f)) {
             char *eq = strchr(line, '=');
-            if (!eq || qv_n >= 4096) continue;
+            if (!eq || qv_n >= 8192) continue;
             *eq = 0;
             strncpy(qv_tab[qv_n].name, line, 95);
             qv_tab[qv_n].v = atoll(eq + 1);
@@ -29,8 +122,5 @@ int main(int argc, char **argv) {
         }
         if (f) fclose(f);
     }
-    QV_ENTRY();
-    if (qv_failed) { printf("REPLAY-RESULT: violated\n"); return 1; }
-    printf("REPLAY-RESULT: postconditions hold for this witness\n");
-    return 0;
+    return run_once();
 }
